@@ -228,6 +228,11 @@ Qed.
 
 Lemma bal_binders prefix bs : balanced (sep_by (comma SCall) (map (pp_binder prefix) bs)).
 Proof. apply bal_sep_by; [auto with bal|]. apply Forall_map. apply Forall_forall. intros b _. destruct b; cbn; auto with bal. Qed.
+Lemma bal_binders_term prefix bs : balanced (term_by (comma SCall) (map (pp_binder prefix) bs)).
+Proof.
+  unfold term_by. apply balanced_flat_map. apply Forall_forall. intros x Hx. apply in_map_iff in Hx. destruct Hx as [b [<- _]].
+  apply balanced_app; [destruct b; cbn; auto with bal|auto with bal].
+Qed.
 Lemma bal_binders_sp sp prefix bs : balanced (sep_by (comma sp) (map (pp_binder prefix) bs)).
 Proof. apply bal_sep_by; [auto with bal|]. apply Forall_map. apply Forall_forall. intros b _. destruct b; cbn; auto with bal. Qed.
 
@@ -255,7 +260,7 @@ Qed.
 
 Ltac solve_arg :=
   first [ assumption | apply bal_pp_vexpr; assumption | apply bal_pp_push; assumption | apply balanced_plain; reflexivity
-        | apply bal_binders_sp | apply bal_binders | apply bal_body; assumption | apply bal_struct_fields | apply bal_rest_marker
+        | apply bal_binders_sp | apply bal_binders | apply bal_binders_term | apply bal_body; assumption | apply bal_struct_fields | apply bal_rest_marker
         | apply bal_parts | solve [auto with bal] ].
 Ltac fin := repeat (first [apply Forall_nil | apply Forall_cons]); try solve_arg.
 
